@@ -2,7 +2,7 @@
 From Coq Require Import List NArith Bool.
 From FP Require Import Model.Base Model.ItsWords Model.ItsFsm Model.Rdh Model.Payload Model.Scanner Model.Views.
 From FP Require Import Spec.WordLayout Spec.Diagram Spec.DiagramAbs Proofs.Bits Proofs.C19_proofs Proofs.C19_det.
-From FP Require Import Spec.Framing Proofs.C03_proofs Proofs.C19_run.
+From FP Require Import Spec.Framing Proofs.C03_proofs Proofs.C19_run Proofs.C19_masks.
 From FP Require Gen.Facts.
 Import ListNotations.
 Open Scope N_scope.
@@ -63,6 +63,13 @@ Theorem C19_rdh_lane_faults : forall d,
   det_lane_status d = if N.testbit d 3 then 3 else if N.testbit d 2 then 2 else if N.testbit d 1 then 1 else if N.testbit d 0 then 4 else 0.
 Proof. exact det_lane_status_spec. Qed.
 
+(* the "trigger" column of an RDH row of the frame views: the documented trigger-type bits, Start of Continuous (9) shown before Start of
+   Triggered (7) before HeartBeat (1) before Physics (4), `Other` when none is set (codes of the model: 0 SOC, 1 SOT, 2 HB, 3 PhT, 4 other);
+   masks and test order are regenerated facts *)
+Theorem C19_rdh_trigger_column : forall t,
+  rdh_trig_kind t = if N.testbit t 9 then 0 else if N.testbit t 7 then 1 else if N.testbit t 1 then 2 else if N.testbit t 4 then 3 else 4.
+Proof. exact (rdh_trig_kind_documented_when eq_refl eq_refl eq_refl eq_refl eq_refl). Qed.
+
 Theorem C19_lanes_are_0_to_27 : lane_ids = map N.of_nat (seq 0 28).
 Proof. exact lane_ids_are_0_27. Qed.
 
@@ -113,3 +120,4 @@ Print Assumptions C19_refuted_batch_format.
 Print Assumptions C19_view_rdh_whole_input.
 Print Assumptions C19_view_rdh_offsets.
 Print Assumptions C19_view_frames_whole_input.
+Print Assumptions C19_rdh_trigger_column.
